@@ -153,13 +153,13 @@ impl Check for C19 {
         vec!["the reference table (requests.rs::verdict, DESIGN.md appendix A) is a correct reading of MQTT 5.0".into(), "string content rules (wildcards in a response topic, U+0000) are invalid user input and not generated".into()]
     }
     fn workloads(&self) -> Vec<Workload> {
-        vec![Workload { name: "property-cells", quick: 27 * 7 * 6, thorough: 27 * 7 * 6 }, Workload { name: "qos-cap-cells", quick: 5 * 3 * 2 * 3, thorough: 5 * 3 * 2 * 3 }, Workload { name: "empty-lists", quick: 6, thorough: 6 }, Workload { name: "legal-sets", quick: 15, thorough: 15 }]
+        vec![Workload { name: "property-cells", quick: 27 * 7 * 6, thorough: 27 * 7 * 6 }, Workload { name: "qos-cap-cells", quick: 5 * 3 * 2 * 3, thorough: 5 * 3 * 2 * 3 }, Workload { name: "empty-lists", quick: 6, thorough: 6 }, Workload { name: "legal-sets", quick: 15, thorough: 15 }, Workload { name: "requests-after-random-histories", quick: 400, thorough: 600_000 }]
     }
     fn min_nontrivial(&self, _tier: Tier) -> usize {
         400
     }
     fn required_counters(&self) -> Vec<&'static str> {
-        vec!["cells_accept", "cells_reject", "no_trace_comparisons", "downgrade_cells", "dead_handle_cells", "blocked_state_cells", "qos_cap_cells_after_reconnect", "reply_cells", "legal_set_cells", "dead_by_keepalive_timeout_cells"]
+        vec!["cells_accept", "cells_reject", "no_trace_comparisons", "downgrade_cells", "dead_handle_cells", "blocked_state_cells", "qos_cap_cells_after_reconnect", "reply_cells", "legal_set_cells", "dead_by_keepalive_timeout_cells", "random_history_requests", "random_history_rejects_judged", "random_history_rejects_reported_invalid"]
     }
     fn exhaustive(&self) -> bool {
         true
@@ -486,6 +486,165 @@ impl Check for C19 {
                         }
                     }
                 });
+            }
+            4 => {
+                // a request with one to three properties (legal, boundary, illegal) issued after a
+                // generated history: whatever state the session is in, an illegal one is refused
+                // without trace, and a legal one is never classed as an invalid request
+                use crate::exec::{Driver, View, run_case};
+                use crate::genr::{Gen, benign_connect, gen_cfg};
+                let profile = match rng.below(5) {
+                    0 => crate::checks::general(&mut rng),
+                    1 => crate::checks::window_heavy(&mut rng),
+                    2 => crate::checks::dead_handle(&mut rng),
+                    3 => crate::checks::replay_heavy(&mut rng),
+                    _ => crate::checks::session_mix(&mut rng),
+                };
+                let cfg = gen_cfg(&mut rng, &profile);
+                let env = Env { topic_alias_max: 0, connect_expiry: cfg.session_expiry };
+                let ctx = *rng.pick(&[Ctx::Publish, Ctx::Subscribe, Ctx::Unsubscribe, Ctx::Disconnect, Ctx::PublishCorrelated]);
+                let n = 1 + rng.below(3);
+                let mut set: Vec<Prop> = Vec::new();
+                let mut ids: Vec<u8> = Vec::new();
+                for _ in 0..n {
+                    // half of the picks come from the kinds that are legal somewhere on a request
+                    let id = if rng.chance(1, 2) { *rng.pick(&[0x01u8, 0x02, 0x03, 0x08, 0x09, 0x0B, 0x11, 0x1F, 0x23, 0x26, 0x26]) } else { *rng.pick(&ALL_PROP_IDS) };
+                    if id != 0x26 && ids.contains(&id) {
+                        continue;
+                    }
+                    ids.push(id);
+                    let vs = variants(id, &mut rng);
+                    set.push(rng.pick(&vs).clone());
+                }
+                let vs: Vec<V> = set.iter().map(|p| verdict(p, ctx, &env)).collect();
+                let v = if vs.contains(&V::Reject) { V::Reject } else if vs.contains(&V::DontCare) { V::DontCare } else { V::Accept };
+                let qos = rng.below(3) as u8;
+                let request = match ctx {
+                    Ctx::Publish => Step::Publish(PubSpec { topic: "c19".into(), payload: PayloadSpec::Bytes(b"ab".to_vec()), qos, retain: false, props: set.clone(), correlate: None, cancel_at: None }),
+                    Ctx::PublishCorrelated => Step::Publish(PubSpec { topic: "c19".into(), payload: PayloadSpec::Bytes(b"ab".to_vec()), qos, retain: false, props: set.clone(), correlate: Some(vec![0xC0, 0xDE]), cancel_at: None }),
+                    Ctx::Subscribe => Step::Subscribe(SubSpec { filters: vec![FilterSpec { filter: "c19/#".into(), max_qos: 1, no_local: false, rap: false, rh: 0 }], props: set.clone(), cancel_at: None }),
+                    Ctx::Unsubscribe => Step::Unsubscribe(UnsubSpec { filters: vec!["c19".into()], props: set.clone(), cancel_at: None }),
+                    _ => Step::Disconnect(DiscSpec { reason: Some(0), props: Some(set.clone()), cancel_at: None }),
+                };
+                struct ThenRequest {
+                    g: Gen,
+                    left: usize,
+                    request: Option<Step>,
+                    req_op: Option<usize>,
+                    tail: usize,
+                    reconnect: bool,
+                }
+                impl Driver for ThenRequest {
+                    fn next(&mut self, v: &View<'_>) -> Option<Step> {
+                        if self.left > 0 {
+                            self.left -= 1;
+                            if let Some(s) = self.g.next(v) {
+                                return Some(s);
+                            }
+                            self.left = 0;
+                        }
+                        if self.request.is_some() {
+                            if !v.has_handle {
+                                if self.reconnect {
+                                    return None;
+                                }
+                                self.reconnect = true;
+                                return Some(Step::Connect(benign_connect(v.snap.session_present)));
+                            }
+                            self.req_op = Some(v.log.ops.len());
+                            return self.request.take();
+                        }
+                        if self.tail > 0 && v.has_handle {
+                            self.tail -= 1;
+                            return Some(Step::Poll { max_wait: 0, cancel_at: None });
+                        }
+                        None
+                    }
+                }
+                let mut g = Gen::new(rng.next(), profile.clone());
+                g.steps_left = rng.range(1, 25);
+                let left = g.steps_left + 2;
+                let mut d = ThenRequest { g, left, request: Some(request), req_op: None, tail: 3, reconnect: false };
+                let (log, world) = run_case(&cfg, seed, &mut d, 80);
+                let w = world.borrow();
+                out.evaluations += 1;
+                let Some(op) = d.req_op.and_then(|i| log.ops.get(i)) else { return out };
+                out.count("random_history_requests", 1);
+                let state = if !op.live_before { "dead" } else if op.snap_before.as_ref().is_some_and(|s| !s.tx.retained.is_empty() || !s.tx.release.is_empty()) { "inflight" } else { "idle" };
+                out.key(format!("random-history/{:?}/{:?}/{}", ctx, v, state));
+                out.nontrivial.push(hash_of(&(format!("{:?}{:?}", ctx, set), op.snap_before.as_ref().map(|s| (s.tx.retained.len(), s.tx.release.len(), s.tx.control.len(), s.send_quota)), op.live_before)));
+                let before = out.violations.len();
+                let lc = format!("{:?}", ctx).to_lowercase();
+                // nothing of a refused request is ever sent: the marker topic / filter never shows up
+                let marked = |k: &CPacket| match k {
+                    CPacket::Publish { topic, .. } => topic == "c19",
+                    CPacket::Subscribe { filters, .. } => filters.iter().any(|f| f.0 == "c19/#"),
+                    CPacket::Unsubscribe { filters, .. } => filters.iter().any(|f| f == "c19"),
+                    _ => false,
+                };
+                let on_wire: Vec<&CPacket> = w.conns.iter().flat_map(|c| c.out.packets.iter()).map(|k| &k.pkt).filter(|k| marked(k)).collect();
+                match v {
+                    V::Reject => {
+                        out.count("random_history_rejects_judged", 1);
+                        // (publish() first flushes what earlier calls queued: an error of that step -
+                        // transport failure, a retained packet above the broker's limit - comes
+                        // before the request is looked at and is as good a refusal)
+                        let want_ok = matches!(&op.outcome, Outcome::Err(_)) || (!op.live_before && ctx == Ctx::Disconnect && matches!(&op.outcome, Outcome::Ok(_)));
+                        if matches!(&op.outcome, Outcome::Err(ErrRepr::InvalidRequest)) {
+                            out.count("random_history_rejects_reported_invalid", 1);
+                        }
+                        if !want_ok {
+                            out.violations.push(viol("C19", format!("C19/random-history/{}/illegal-accepted", lc), format!("{:?} with properties {:?} (illegal: {:?}) after a generated history returned {:?} (handle live before: {})", ctx, set, set.iter().zip(&vs).filter(|(_, x)| **x == V::Reject).map(|(p, _)| p).collect::<Vec<_>>(), op.outcome, op.live_before)));
+                        }
+                        if !on_wire.is_empty() {
+                            out.violations.push(viol("C19", format!("C19/random-history/{}/refused-but-sent", lc), format!("{:?} with illegal properties {:?} returned {:?}, but the request is on the wire", ctx, set, op.outcome)));
+                        }
+                        if matches!(op.outcome, Outcome::Err(ErrRepr::InvalidRequest)) {
+                            if let (Some(b), Some(a)) = (&op.snap_before, &op.snap_after) {
+                                let idl = |s: &Snap| s.tx.retained.iter().map(|e| (e.packet_id, e.len)).collect::<Vec<_>>();
+                                if idl(b) != idl(a) || b.send_quota != a.send_quota || b.next_packet_id != a.next_packet_id || b.tx.release.len() != a.tx.release.len() {
+                                    out.violations.push(viol("C19", format!("C19/random-history/{}/refused-but-left-trace", lc), format!("{:?} with {:?} returned InvalidRequest but retained {:?} -> {:?}, quota {} -> {}, next identifier {} -> {}", ctx, set, idl(b), idl(a), b.send_quota, a.send_quota, b.next_packet_id, a.next_packet_id)));
+                                }
+                            }
+                            if !op.live_before && op.touches_after != op.touches_before {
+                                out.violations.push(viol("C19", format!("C19/dead-handle/{:?}", ctx), format!("{:?} on a dead handle performed {} transport calls", ctx, op.touches_after - op.touches_before)));
+                            }
+                        }
+                    }
+                    V::Accept => {
+                        if matches!(op.outcome, Outcome::Err(ErrRepr::InvalidRequest)) {
+                            out.violations.push(viol("C19", format!("C19/random-history/{}/legal-refused-as-invalid", lc), format!("{:?} with the legal properties {:?} returned InvalidRequest (handle live before: {})", ctx, set, op.live_before)));
+                        }
+                        // what reached the wire carries exactly the requested properties
+                        let mut want = set.clone();
+                        if ctx == Ctx::PublishCorrelated {
+                            want.push(Prop::CorrelationData(vec![0xC0, 0xDE]));
+                        }
+                        want.sort_by_key(|p| format!("{:?}", p));
+                        for k in &on_wire {
+                            let props = match k {
+                                CPacket::Publish { props, .. } | CPacket::Subscribe { props, .. } | CPacket::Unsubscribe { props, .. } => props.clone(),
+                                _ => continue,
+                            };
+                            let mut got = props;
+                            got.sort_by_key(|p| format!("{:?}", p));
+                            if got != want {
+                                out.violations.push(viol("C19", format!("C19/random-history/{}/not-on-wire", lc), format!("{:?} accepted with {:?}, decoded from the wire with {:?}", ctx, want, got)));
+                                break;
+                            }
+                            out.count("random_history_accepts_decoded", 1);
+                        }
+                    }
+                    V::DontCare => {}
+                }
+                if verbose && out.violations.len() > before {
+                    for l in render(&log, &w, 400) {
+                        println!("{}", l);
+                    }
+                }
+                if out.sample.is_none() {
+                    out.sample = Some(serde_json::json!({"request": format!("{:?} {:?}", ctx, set), "verdict": format!("{:?}", v), "outcome": format!("{:?}", op.outcome), "ops_before": d.req_op}));
+                }
             }
             3 => {
                 // several legal properties on one request: repeated User Properties (the one kind
